@@ -770,6 +770,19 @@ class Machine:
         else:
             s.xmm[ops[1][1]] = ('fxor', prec, self._x(s, ops[1]), self._x(s, ops[0]))
 
+    def _xcopy(self, s, ops):
+        if ops[0][0] == 'xmm' and ops[1][0] == 'xmm':
+            s.xmm[ops[1][1]] = s.xmm.get(ops[0][1], ('xinit', ops[0][1]))
+            return
+        raise Unknown('packed move with a memory operand')
+
+    def i_movaps(self, s, ops): self._xcopy(s, ops)
+    def i_movapd(self, s, ops): self._xcopy(s, ops)
+    def i_movups(self, s, ops): self._xcopy(s, ops)
+    def i_movupd(self, s, ops): self._xcopy(s, ops)
+    def i_movdqa(self, s, ops): self._xcopy(s, ops)
+    def i_movdqu(self, s, ops): self._xcopy(s, ops)
+
     def i_xorps(self, s, ops): self._fxor(s, ops, 32)
     def i_xorpd(self, s, ops): self._fxor(s, ops, 64)
     def i_pxor(self, s, ops): self._fxor(s, ops, 64)
